@@ -456,6 +456,78 @@ def flatten(tree):
     return done
 
 
+def inline_bases(tree, resolve_class):
+    """class C(_Base) over a private base class of the package that has no base of its own reads as the one class it
+    amounts to: the base's methods and class constants that C does not redefine are copied into C, and a
+    `super().__init__(args)` statement of C.__init__ is replaced by the body of the base's __init__.
+    resolve_class(name) -> ClassDef (this module or imported) or None."""
+    done = []
+    for cls in [c for c in tree.body if isinstance(c, ast.ClassDef)]:
+        if len(cls.bases) != 1 or not isinstance(cls.bases[0], ast.Name) or not cls.bases[0].id.startswith('_') or cls.keywords or cls.decorator_list:
+            continue
+        base = resolve_class(cls.bases[0].id)
+        if base is None or base is cls or base.keywords or base.decorator_list or any(not (isinstance(b, ast.Name) and b.id == 'object') for b in base.bases):
+            continue
+        own_defs = {s_.name for s_ in cls.body if isinstance(s_, ast.FunctionDef)}
+        own_names = {t.id for s_ in cls.body if isinstance(s_, (ast.Assign, ast.AnnAssign)) for t in (s_.targets if isinstance(s_, ast.Assign) else [s_.target])
+                     if isinstance(t, ast.Name)}
+        b_init = next((s_ for s_ in base.body if isinstance(s_, ast.FunctionDef) and s_.name == '__init__'), None)
+        c_init = next((s_ for s_ in cls.body if isinstance(s_, ast.FunctionDef) and s_.name == '__init__'), None)
+        ok = True
+        if c_init is not None and b_init is not None:
+            sup = [(i, s_) for i, s_ in enumerate(c_init.body) if isinstance(s_, ast.Expr) and isinstance(s_.value, ast.Call)
+                   and ast.unparse(s_.value.func) in ('super().__init__', 'super(%s, %s).__init__' % (cls.name, c_init.args.args[0].arg))]
+            other_super = [n for n in ast.walk(cls) if isinstance(n, ast.Call) and isinstance(n.func, ast.Name) and n.func.id == 'super']
+            if len(sup) != 1 or len(other_super) != 1:
+                ok = False
+            else:
+                i, st = sup[0]
+                bp = [a.arg for a in b_init.args.args]
+                call = st.value
+                if call.keywords or len(call.args) != len(bp) - 1 or not all(isinstance(a, (ast.Name, ast.Constant)) for a in call.args) \
+                        or b_init.args.vararg or b_init.args.kwarg or b_init.args.defaults:
+                    ok = False
+                else:
+                    ren = {bp[0]: ast.Name(id=c_init.args.args[0].arg, ctx=ast.Load())}
+                    ren.update({p_: a for p_, a in zip(bp[1:], call.args)})
+
+                    class _Sub(ast.NodeTransformer):
+                        def visit_Name(self_, n):
+                            if n.id in ren and isinstance(n.ctx, ast.Load):
+                                return ast.copy_location(_clone(ren[n.id]), n)
+                            if n.id == bp[0]:
+                                return ast.copy_location(ast.Name(id=c_init.args.args[0].arg, ctx=n.ctx), n)
+                            return n
+                    body = [_Sub().visit(_clone(x)) for x in b_init.body if not _is_doc(x)]
+                    for x in body:
+                        for n_ in ast.walk(x):
+                            if hasattr(n_, 'lineno'):
+                                n_.lineno = n_.end_lineno = st.lineno
+                        ast.fix_missing_locations(x)
+                    c_init.body[i:i + 1] = body or [ast.copy_location(ast.Pass(), st)]
+        elif any(isinstance(n, ast.Call) and isinstance(n.func, ast.Name) and n.func.id == 'super' for n in ast.walk(cls)):
+            ok = False
+        if not ok:
+            continue
+        add_front, add_back = [], []
+        for s_ in base.body:
+            if isinstance(s_, ast.FunctionDef) and s_.name not in own_defs and not (s_.name == '__init__' and c_init is not None):
+                add_back.append(_clone(s_))
+            elif isinstance(s_, (ast.Assign, ast.AnnAssign)):
+                tg = [t.id for t in (s_.targets if isinstance(s_, ast.Assign) else [s_.target]) if isinstance(t, ast.Name)]
+                if tg and not (set(tg) & own_names):
+                    add_front.append(_clone(s_))
+        pos = 1 if cls.body and _is_doc(cls.body[0]) else 0
+        cls.body[pos:pos] = add_front
+        cls.body.extend(add_back)
+        cls.bases = []
+        done.append((cls.name, base.name))
+    if done:
+        ast.fix_missing_locations(tree)
+        _link(tree)
+    return done
+
+
 PURE_VALUE_PARSERS = ('Category.parse',)     # text -> frozen value, no state: memoising them changes nothing observable
 
 
